@@ -1,7 +1,7 @@
 """C12 root_attach moves only root children, to the lowest node spanning the neighbours."""
 from .. import model, sweep
 from ..runner import Result, scratch
-from ..bridge import T, build, quiet, monitor, extract, mt_equal, all_nodes, build_via_export, perturb
+from ..bridge import T, build, quiet, monitor, extract, mt_equal, all_nodes, build_via_export, perturb, compare_written
 
 from trees import transform
 
@@ -128,6 +128,14 @@ def check_tree(mtj, order=None):
                     'detail': 'input %s: %s' % (model.mt_str(mt.root), d),
                     'what': 'root_attach result differs from the documented rule'})
         return out, moves
+    # what the user gets: the result as shown by each writer
+    if moves and order is None:
+        probs = compare_written(r, exp, model.mt_tree_gap_degree(exp.root) == 0, fmts=('brackets', 'discobrackets', 'export'))
+        if probs:
+            out.append({'kind': 'attach-written', 'where': 'root_attach', 'case': case,
+                        'detail': 'input %s: %s' % (model.mt_str(mt.root), '; '.join(probs)),
+                        'what': 'the written result of root_attach differs from the documented rule'})
+            return out, moves
     # non-initial state: undo the moves by hand (same objects, only .children/.parent touched) and run
     # root_attach again; the result must be the same as on the fresh tree
     moved = [x for x in all_nodes(r) if x.parent is not before[id(x)]]
